@@ -209,14 +209,14 @@ pub proof fn lemma_sonic_lc_lockstep(tm: Map<&String, (&LabeledPolynomial, &St, 
 }
 pub struct SonicKZG10;
 impl SonicKZG10 {
-//@fn id=sonic.check_combinations file=poly-commit/src/sonic_pc/mod.rs scope="impl<E, P> PolynomialCommitment<E::ScalarField, P> for SonicKZG10<E, P>" name=check_combinations props=C06,C05,C04,C17
+//@fn id=sonic.check_combinations file=poly-commit/src/sonic_pc/mod.rs scope="impl<E, P> PolynomialCommitment<E::ScalarField, P> for SonicKZG10<E, P>" name=check_combinations props=C06,C05,C04,C17,C02
     #[verifier::loop_isolation(false)]
     fn check_combinations<'a>(vk: &VK, linear_combinations: Vec<&'a LinearCombination>, commitments: Vec<&'a LabeledCommitment<Commitment>>, eqn_query_set: &BTreeSet<(String, (String, Pt))>, eqn_evaluations: &BTreeMap<(String, Pt), Fr>, proof: &BatchLCProof, sponge: &mut Sponge, rng: &mut Rng) -> (res: Result<bool, Error>)
     ensures
         // every combination is turned into ONE commitment sum_i c_i C_i (with the kept degree bound), its constants are
         // subtracted from every claimed value of its label, and the verdict is the scheme's batch verification of exactly these;
         // a combination that would drop an enforced degree bound, or names a polynomial without commitment, is refused
-        scc_post(vk, linear_combinations@, commitments@, eqn_query_set@, eqn_evaluations@, proof, old(sponge).st@, old(rng).id@, old(rng).pos@, res, final(sponge).st@),   // name=sonic.check_combinations.batch_verification_of_the_combined_commitments props=C06,C05,C04,C17
+        scc_post(vk, linear_combinations@, commitments@, eqn_query_set@, eqn_evaluations@, proof, old(sponge).st@, old(rng).id@, old(rng).pos@, res, final(sponge).st@),   // name=sonic.check_combinations.batch_verification_of_the_combined_commitments props=C06,C05,C04,C17,C02
 //@body
 //@rw 1 /let BatchLCProof \{ proof, \.\. \} = proof;/ => let proof = &proof.proof;
 //@rw 1 /(?s)let label_comm_map = (commitments\s*\.into_iter\(\)\s*\.map\(.*?\))\s*\.collect::<BTreeMap<_, _>>\(\);/ => let cv__: Vec<(&String, &LabeledCommitment<Comm>)> = \1.collect();
